@@ -44,7 +44,7 @@
 From Coq Require Import ZArith QArith List Bool.
 From Knut Require Import Model.Str Model.Dec Model.Date Model.Account Model.Ledger Model.Journal
      Model.ImpCommonA Model.ImpCommonB Model.Imp.Revolut2 Model.Imp.Revolut Model.Imp.Wise Model.Imp.Swissquote Model.Imp.Interactivebrokers
-     Spec.TableSpec Spec.ImpSpecA Spec.ImpSpecB Spec.ImpSpecIB Proofs.DecValue Proofs.ImpProofsB Proofs.ImpProofsIB Proofs.ImpRunB.
+     Spec.TableSpec Spec.ImpSpecA Spec.ImpSpecB Spec.ImpSpecIB Proofs.DecValue Proofs.PairProofs Proofs.ImpProofsB Proofs.ImpProofsIB Proofs.ImpRunB.
 Import ListNotations.
 
 (* ---------------------------------------------------------------- bookings *)
@@ -54,6 +54,19 @@ Theorem C13b_effect_of_bookings : forall a c ls d desc tg,
   effect a c (mkTxn d desc (concat (map booking_postings ls)) tg) == legs_effect a c ls.
 Proof. intros. rewrite effect_peffect. apply bookings_effect. Qed.
 Print Assumptions C13b_effect_of_bookings.
+
+(* a transaction that books a row (books_b) is a sequence of posting pairs, and the journal built
+   from directives whose transactions each book some row consists of such transactions, day by
+   day: what group B importers hand to journal.Print is balanced (C13_print_balanced for group A) *)
+Theorem C13b_print_balanced : forall acct f ls tg t, books_b acct f ls tg t -> txn_ok t.
+Proof. exact books_b_paired. Qed.
+Print Assumptions C13b_print_balanced.
+
+Theorem C13b_journal_balanced : forall ds,
+  Forall (fun d => match d with DTxn t => exists acct f ls tg, books_b acct f ls tg t | _ => True end) ds ->
+  Forall day_ok (b_days (builder_of ds)).
+Proof. exact booked_days_ok. Qed.
+Print Assumptions C13b_journal_balanced.
 
 (* ---------------------------------------------------------------- revolut2 *)
 (* After the header every record has 10 fields.  Rows without Completed Date are not booked.
@@ -326,6 +339,12 @@ Theorem C13_interactivebrokers_stdout :
 Proof. exact interactivebrokers_stdout. Qed.
 Print Assumptions C13_interactivebrokers_stdout.
 
+(* ... and that journal consists of posting pairs, day by day *)
+Theorem C13_interactivebrokers_print_balanced : forall acct items ds,
+  Forall2 (ibs_emitted acct) items ds -> Forall day_ok (b_days (builder_of ds)).
+Proof. exact interactivebrokers_days_ok. Qed.
+Print Assumptions C13_interactivebrokers_print_balanced.
+
 (* what ibs_num2 is: the exact amount rounded half away from zero to two places (Spec/TableSpec.v,
    is_round_haz); an amount with at most two decimals (exponent >= -2) is read exactly *)
 Theorem C13_interactivebrokers_rounding : forall s q,
@@ -385,6 +404,16 @@ Example C13_interactivebrokers_statement_run :
     length ds = 8%nat /\
     nth 7 ds (DAssert 0 []) = DAssert (of_civil 2024 1 31) [mkBalance a (mkDec (-1105) (-2)) [85;83;68]%Z].
 Proof. eexists. split; [vm_compute; reflexivity|]. split; reflexivity. Qed.
+
+(* the order of the records matters (the hypothesis ibs_wf threads the context): a Forex trade
+   after the Base Currency record is booked, the same trade before it makes the import fail *)
+Example C13_interactivebrokers_order_matters :
+  let a := [s_Assets; [73;66]%Z] in let x := [s_Expenses; [88]%Z] in
+  let base := nth 1 w_ib_statement [] in let fx := nth 4 w_ib_statement [] in
+  ibs_wf ibs_ctx0 [base; fx] = true /\ ibs_wf ibs_ctx0 [fx; base] = false /\
+  (exists t, import_interactivebrokers a x x x x x [CRec base; CRec fx] = MOk [DTxn t]) /\
+  import_interactivebrokers a x x x x x [CRec fx; CRec base] = MErr e_base.
+Proof. vm_compute. repeat split. eexists. reflexivity. Qed.
 
 (* The row theorems: what ONE record of each transaction kind other than a Forex trade yields, in
    ANY state of the importer (the state is unchanged), stated on the record alone.  On well-formed
